@@ -4,33 +4,33 @@ package core
 // timestamp batching state of thread.go and to the raw words of SuDate / SuTimestamp.
 // Nothing here is used by other harnesses.
 
-// VerifTsState is one client process's batching state (the globals tsCount, tsLimit, tsLast).
-type VerifTsState struct {
+// TsVerifState is one client process's batching state (the globals tsCount, tsLimit, tsLast).
+type TsVerifState struct {
 	Count, Limit int
 	Last         SuDate
 }
 
-// VerifTsGet / VerifTsSet save and restore the globals, so that one test process can stand for
+// TsVerifGet / TsVerifSet save and restore the globals, so that one test process can stand for
 // several client processes (each with its own copy of the globals).
-func VerifTsGet() VerifTsState { return VerifTsState{tsCount, tsLimit, tsLast} }
+func TsVerifGet() TsVerifState { return TsVerifState{tsCount, tsLimit, tsLast} }
 
-func VerifTsSet(s VerifTsState) { tsCount, tsLimit, tsLast = s.Count, s.Limit, s.Last }
+func TsVerifSet(s TsVerifState) { tsCount, tsLimit, tsLast = s.Count, s.Limit, s.Last }
 
-// VerifTsExpireStep is the body of the loop of tsExpire (thread.go), verbatim; the goroutine
+// TsVerifExpireStep is the body of the loop of tsExpire (thread.go), verbatim; the goroutine
 // itself (for { time.Sleep(1 * time.Second); <this> }) is not run by the sequential harness.
-func VerifTsExpireStep() {
+func TsVerifExpireStep() {
 	tsLock.Lock()
 	tsCount = tsLimit + 1
 	tsLock.Unlock()
 }
 
-// VerifMkDate builds a SuDate from its two raw words without validation (the harness Assumes
+// TsVerifMkDate builds a SuDate from its two raw words without validation (the harness Assumes
 // the field ranges).
-func VerifMkDate(date, time uint32) SuDate { return SuDate{date: date, time: time} }
+func TsVerifMkDate(date, time uint32) SuDate { return SuDate{date: date, time: time} }
 
-// VerifTsParts splits a value handed out by Timestamp into the raw date word, the raw time word
+// TsVerifParts splits a value handed out by Timestamp into the raw date word, the raw time word
 // and the extra byte (0 for a plain SuDate). ok is false for any other type.
-func VerifTsParts(v any) (date, time uint32, extra int, ok bool) {
+func TsVerifParts(v any) (date, time uint32, extra int, ok bool) {
 	switch d := v.(type) {
 	case SuDate:
 		return d.date, d.time, 0, true
